@@ -13,7 +13,7 @@
 // Ops:
 //
 //	cfg <spe> <durMs> <startMs> <genesisMs> <builder 0|1> <nsubs> <nvals>
-//	gen ok|fail | syn ok|syncing|fail | adv <ms> | hold | rel | failv <bits> | stop | regans ok|fail
+//	gen ok|fail | syn ok|syncing|fail | adv <ms> | back <ms> (the clock steps back) | hold | rel | failv <bits> | stop | regans ok|fail
 //
 // Answer per op: `<phase> tk=<ticker> t=<slots received> d=<duties triggered slot/type> sub=<subscriber calls>
 // reg=<waiting>/<in flight>/<submissions so far> re=<resolvedEpoch>`:
@@ -107,6 +107,7 @@ type episode struct {
 	retErr    error
 	stopped   bool
 	tkSeen    bool
+	tkFired   bool // the ticker's timer has fired (stays so when the clock steps back)
 	tkDl      time.Time
 	inflight  []chan string
 	calls     int
@@ -219,7 +220,7 @@ func (g gclock) After(d time.Duration) <-chan time.Time {
 	e.mu.Lock()
 	switch kind {
 	case "T":
-		e.tkSeen, e.tkDl = true, g.Now().Add(d)
+		e.tkSeen, e.tkDl, e.tkFired = true, g.Now().Add(d), false
 	case "D":
 		if d != e.dur*3/4 {
 			e.note("schedrun:registration_delay_not_three_quarters", fmt.Sprintf("delay %v, slot %v", d, e.dur))
@@ -579,6 +580,9 @@ func (e *episode) finish(run *hx.Run) string {
 	}
 	e.notes = nil
 
+	if e.tkSeen && !e.tkDl.After(e.fc.Now()) {
+		e.tkFired = true
+	}
 	ph := e.runAt
 	switch {
 	case e.returned && e.retErr == nil:
@@ -597,7 +601,7 @@ func (e *episode) finish(run *hx.Run) string {
 		if strings.Contains(dump, "newSlotTicker") && e.liveTicker(dump) {
 			run.Violate("schedrun:ticker_leaked", "the ticker goroutine is alive after Run returned")
 		}
-	case e.tkSeen && e.tkDl.After(e.fc.Now()):
+	case e.tkSeen && !e.tkFired && e.tkDl.After(e.fc.Now()):
 		tk = fmt.Sprintf("w%d", e.tkDl.Sub(e.genesis)/e.dur)
 	case e.tkSeen:
 		tk = "o"
@@ -713,6 +717,10 @@ func main() {
 		case "adv":
 			run.Count("adv@" + ep.phase()[:1])
 			ep.fc.Advance(time.Duration(u64(f[1])) * time.Millisecond)
+		case "back":
+			// the wall clock is adjusted backwards: timers keep their deadlines
+			run.Count("back@" + ep.phase()[:1])
+			ep.fc.Advance(-time.Duration(u64(f[1])) * time.Millisecond)
 		case "hold":
 			ep.mu.Lock()
 			ep.hold = true
@@ -843,6 +851,14 @@ func generateEpisode(rng *hx.Rng, exec func(string) string, cur func() *episode)
 				return
 			}
 			adv(dur * int64(1+rng.Intn(3)))
+		case strings.HasPrefix(ph, "B") && f[1] == "tk=o" && rng.Chance(1, 4):
+			// a slot is on offer while the handler is busy: the wall clock steps back by some tens of ms
+			ms := int64(1 + rng.Intn(200))
+			if off := (now - gen) % dur; now > gen && off+60 < dur && rng.Chance(2, 3) {
+				ms = off + 1 + int64(rng.Intn(50)) // just across the start of the current slot
+			}
+			now -= ms
+			out = exec(fmt.Sprintf("back %d", ms))
 		case strings.HasPrefix(ph, "B"):
 			switch r := rng.Intn(10); {
 			case r < 4:
@@ -865,6 +881,10 @@ func generateEpisode(rng *hx.Rng, exec func(string) string, cur func() *episode)
 			switch r := rng.Intn(40); {
 			case r == 0 && !stopped:
 				out, stopped = exec("stop"), true
+			case r == 1 && rng.Chance(1, 3):
+				ms := int64(1 + rng.Intn(int(dur)/2))
+				now -= ms
+				out = exec(fmt.Sprintf("back %d", ms))
 			case r < 5 && !holdArmed:
 				out, holdArmed = exec("hold"), true
 			case r < 8:
